@@ -199,6 +199,9 @@ def check(case: Dict[str, Any]) -> Outcome:
                 if inbound:
                     client.set_protocol_version("2025-06-18")  # batches from the server are answered with -32600 on stdin
                 stall = case.get("stall")
+                for j_ in range(case.get("pending_streams", 0)):
+                    # the application registered per-request streams for requests nobody has answered (yet)
+                    client.new_request_stream(f"pending-{j_}")
                 for k_, (obj, _) in enumerate(built):
                     if inbound.get(k_) == -1:
                         procs[0].stdout.feed(BATCH_LINE)
@@ -243,7 +246,7 @@ def check(case: Dict[str, Any]) -> Outcome:
         out.nontrivial = True
     if case.get("stall") and case["stall"][0] < len(built):
         out.nontrivial = True
-    out.classes = (("burst",) if case.get("burst") else ()) + ((f"child-not-reading:{case['stall'][2]}:{'>=5s' if case['stall'][1] >= 5 else '<5s'}",) if case.get("stall") else ()) + tuple(c for c, v in (("bad-then-good", bad_then_good), ("raw-line-break-char", raw_break), ("nested-null", nested_null), ("inbound-batches", bool(case.get("inbound"))),
+    out.classes = (("unanswered-request-streams-registered",) if case.get("pending_streams") else ()) + (("burst",) if case.get("burst") else ()) + ((f"child-not-reading:{case['stall'][2]}:{'>=5s' if case['stall'][1] >= 5 else '<5s'}",) if case.get("stall") else ()) + tuple(c for c, v in (("bad-then-good", bad_then_good), ("raw-line-break-char", raw_break), ("nested-null", nested_null), ("inbound-batches", bool(case.get("inbound"))),
                                         ("huge-line", any(w is not None and len(json.dumps(w)) > 65536 for _, w in built))) if v) + (f"items:{min(len(items), 12)}",) + (("real-child",) if case.get("real") else ())
 
     data: bytes = state.get("data", b"")
@@ -373,6 +376,8 @@ def cases(draw):
             elif r == 2 and it[0] == "dict":
                 tgt["deep"] = {"$deep": draw(st.sampled_from([100, 260, 300]))}
     case: Dict[str, Any] = {"items": its}
+    if draw(st.integers(0, 5)) == 0:
+        case["pending_streams"] = draw(st.integers(1, 3))
     if draw(st.integers(0, 4)) == 0:
         case["stall"] = [draw(st.integers(0, len(its) - 1)), draw(st.sampled_from([0.01, 0.5, 3.0, 6.0, 12.0, 31.0, 61.0, 200.0])), draw(st.sampled_from(["full", "queued"]))]
     if draw(st.integers(0, 3)) == 0:
@@ -399,6 +404,8 @@ def job_positions(col: Collector, seed: int, tier: str) -> None:
             case = {"items": items}
             col.record(case, check(case))
         case = {"items": [["bad", kind], ["bad", kind]] + good}
+        col.record(case, check(case))
+        case = {"items": [["bad", kind]] + good, "pending_streams": 2}
         col.record(case, check(case))
     col.exhaustive_parts.append("each of 7 unserialisable kinds at each of 6 positions of a fixed 5-item sequence (incl. a null-id error reply)")
 
